@@ -269,6 +269,23 @@ CLAIMED = {
         "(positive VTB/TVTB vectors raise ImportError); tolerance 1e-8 / 1e-7 on relations.",
         "DESIGN.md section 5, C19",
     ),
+    "C05": (
+        "Coq/MathComp proofs (index arithmetic of the product-unit layout; the per-block MatrixMult composition equals the "
+        "kron/reshape binding core; helper matrices are the transposition) about a hand-written executable model of the "
+        "binding networks; Direct-mode simulation of the real networks compared with the model in Coq on complete bases",
+        "Theorems for every commutative ring and all sizes: MatrixMult((m,k),(k,n)) computes the exact matrix product; "
+        "inversion_matrix and swapping_matrix are the s x s transposition permutation; the VTB network without options is "
+        "vtb_bind, with unbind_right it is bind(left, rinv right), with unbind_left it is sqrt(s) W^T X, both options are "
+        "rejected; the TVTB network is sqrt(s) A B, sqrt(s) A B^T and sqrt(s) X^T W respectively - by C08 these return y "
+        "exactly when x is unitary and are their bilinear extension otherwise. PARTIAL: the HRR CircularConvolution network "
+        "(cos/sin DFT tables) is not executable over a ring; it is tied on the complete basis for every tested d (1..9, "
+        "thorough 1..24) under all four option settings, which with bilinearity of the network shape settles all inputs of "
+        "those d only. Tie: MatrixMult shapes up to 3 (5), VTB/TVTB d in {1,4,9} (+16,25), network and spa.Bind, all "
+        "option sets, unitary x with basis y, linearity probes. One defect (TVTB unbind_left) found and repaired.",
+        "Trusted: Coq kernel + vm_compute; Model/Nets.v; Nengo Direct-mode semantics (products exact, connections deliver "
+        "transform * value, unfiltered connections act in the same step); harness.",
+        "DESIGN.md section 5, C05",
+    ),
 }
 
 NOT_YET = "not yet built in this revision of /verif (design in DESIGN.md section 5); no check is claimed"
